@@ -139,6 +139,7 @@ def work_capture(item, N):
     """Capture clause, semantic part: translate(P) with markers around the body of capture group k must have the language of the
     real matcher for the pattern P with the same markers written around extended group k - for every name up to N."""
     mode, (ast, k), flags, _exclude, _ng = item
+    N = min(N, 6)          # the marker relation doubles the alphabet-sensitive part of the formula: name bound 6 in both tiers (stated in evidence)
     base = mode[:2]
     if base == 'fn':
         text, marked = gen.render_nodes(ast), render_marked(ast, k)
@@ -483,7 +484,7 @@ def run(ctx):
         common.confirm(ctx, rep)
     ctx.coverage.update({
         'evaluations': q['sat'] + q['unsat'] + q['unknown'],
-        'distinct_nontrivial': len(nontrivial), 'capture_text_obligations': ncapture,
+        'distinct_nontrivial': len(nontrivial), 'capture_text_obligations': ncapture, 'capture_text_name_length_max': 6,
         'rule': 'one obligation per (mode, pattern list, flags, exclude); non-trivial = translate() text differs from the executed '
                 'regex text (capture groups present), so the equality is not syntactic; evaluations = solver queries',
         'samples': samples,
